@@ -33,7 +33,7 @@ func (e *Engine) VerifyFunc(fn *ssa.Function, fc *FuncContract) (res *FuncResult
 	res = &FuncResult{Name: FuncName(fn), Ctx: ctx, Contract: fc, Used: map[string]bool{}}
 	f := &Frame{eng: e, ctx: ctx, fn: fn, vals: map[ssa.Value]string{}, tuples: map[ssa.Value][]string{},
 		reach: map[*ssa.BasicBlock]string{}, endSt: map[*ssa.BasicBlock]*State{}, contract: fc,
-		ordinals: map[string]int{}, closures: map[string]*closureVal{}, usedContracts: res.Used, assertsHit: map[string]bool{}, bridged: map[string]bool{}}
+		ordinals: map[string]int{}, closures: map[string]*closureVal{}, usedContracts: res.Used, assertsHit: map[string]bool{}, bridged: map[string]bool{}, csCount: map[string]int{}, noopFuncs: map[string]bool{}}
 	f.top = f
 	defer func() {
 		if r := recover(); r != nil {
@@ -479,10 +479,3 @@ func (f *Frame) tryVal(v ssa.Value) (t string, ok bool) {
 	return "", false
 }
 
-// ---- lock model (monitor invariants) ----
-
-func (f *Frame) lockModel(mu string, lock bool, reach string, st *State) {
-	// Tier 3 (DESIGN §5): without declared guards, Lock/Unlock have no effect on
-	// the modelled state.
-	f.eng.note("sync.Mutex Lock/Unlock without declared guards: no effect on modelled state")
-}
